@@ -402,4 +402,37 @@ mod k {
             kani::cover!(got.is_some()); kani::cover!((len == 32) & got.is_none()); kani::cover!(len == 33);
         }
     }
+
+    // ------------------------------------------------------------------ C08: keypair import (SigningKey::from_keypair_bytes)
+    // accepted exactly when the public half decodes and is BYTE-identical to the verifying key derived from the secret half
+    // (SigningKey::from_bytes = SHA-512 + clamp + basepoint multiplication is replaced by a model derivation; the birational map to
+    //  Montgomery form, should an implementation compare through it, is modelled as what it is: not injective - it forgets the sign of x)
+    fn m_derive(b: &[u8; 32]) -> SigningKey {
+        let mut c = [0u8; 32]; let mut i = 0; while i < 32 { c[i] = b[i].rotate_left(3) ^ 0x5c; i += 1; }
+        SigningKey { secret_key: *b, verifying_key: VerifyingKey { compressed: CompressedEdwardsY(c), point: vh::point_from_tags(w(&c), c[31] as u64) } }
+    }
+    fn m_dec_any(c: &CompressedEdwardsY) -> Option<EdwardsPoint> { if c.0[1] & 1 == 1 { None } else { Some(vh::point_from_tags(w(&c.0), c.0[31] as u64)) } }
+    fn m_to_mont(p: &EdwardsPoint) -> curve25519_dalek::montgomery::MontgomeryPoint {
+        let t = vh::point_tags(p); let mut o = [0u8; 32]; let a = t.0.to_le_bytes(); let mut i = 0; while i < 8 { o[i] = a[i]; i += 1; }
+        o[8] = (t.1 as u8) & 0x7f;      // the sign bit (bit 7 of the last encoding byte) does not survive the map
+        curve25519_dalek::montgomery::MontgomeryPoint(o)
+    }
+    fn m_nodrop(_k: &mut SigningKey) {}      // a rejected key is dropped, i.e. zeroized through zeroize's inline-asm barrier, which Kani cannot model; erasure is C14's subject
+    #[kani::proof]
+    #[kani::unwind(70)]
+    #[kani::stub(crate::signing::SigningKey::from_bytes, m_derive)]
+    #[kani::stub(CompressedEdwardsY::decompress, m_dec_any)]
+    #[kani::stub(EdwardsPoint::to_montgomery, m_to_mont)]
+    #[kani::stub(<SigningKey as core::ops::Drop>::drop, m_nodrop)]
+    fn c08_from_keypair_bytes_accepts_exactly_matching_halves() {
+        let kp: [u8; 64] = kani::any();
+        let (sec, pubh) = split(&kp);
+        let r = SigningKey::from_keypair_bytes(&kp);
+        let derived = m_derive(&sec);
+        let want = m_dec_any(&CompressedEdwardsY(pubh)).is_some() && derived.verifying_key.compressed.0 == pubh;
+        assert!(r.is_ok() == want);
+        if let Ok(k) = r { assert!(k.secret_key == sec); assert!(k.verifying_key.compressed.0 == pubh); core::mem::forget(k); }
+        kani::cover!(want); kani::cover!(!want);
+        core::mem::forget(derived);
+    }
 }
